@@ -117,7 +117,7 @@ class Env:
     def check_eq(self, a, b, label, tol=TOL):
         self.checked += 1
         if self.symbolic:
-            pa, pb = Sym.of(a).p, Sym.of(b).p
+            pa, pb = path.expand_radicals(Sym.of(a).p), path.expand_radicals(Sym.of(b).p)
             self.obls.append(dict(label=label, neg=smt.f_cneq(pa, pb), kind="eq", trivial=pa.sub(pb).is_zero()))
         else:
             za, zb = complex(a), complex(b)
@@ -132,7 +132,7 @@ class Env:
         if self.symbolic:
             negs, triv = [], True
             for x, y in zip(A, B):
-                px, py = Sym.of(x).p, Sym.of(y).p
+                px, py = path.expand_radicals(Sym.of(x).p), path.expand_radicals(Sym.of(y).p)
                 if px.sub(py).is_zero():
                     continue
                 triv = False
